@@ -9,10 +9,8 @@ only if it really is reached behind one of the IsValid gates — check the call 
 """
 import sys
 
-def cls(fn, fld, root="_"):
+def cls(fn, fld):
     pkg, f = fn.split(":")
-    if fld == "ProposedHeader" and root == "prevBlock":
-        return "nil-checked", "the predecessor may be an empty block (ProposedHeader nil): every prevBlock.ProposedHeader.X sits behind `prevBlock.ProposedHeader == nil ||` / `!= nil &&` in the same condition; the guard count is pinned"
     modelled = {
      ("blockchain/types:Header.Height","ProposedHeader"),("blockchain/types:Header.Height","EmptyBlockHeader"),
      ("blockchain/types:Header.Hash","ProposedHeader"),("blockchain/types:Header.Hash","EmptyBlockHeader"),
@@ -33,8 +31,6 @@ def cls(fn, fld, root="_"):
         modelled.add(("blockchain/types:Header."+a,"ProposedHeader"))
     if (fn,fld) in modelled:
         return "modelled", "accessor / handler step with this dereference as an explicit panic point in Model/Messages.lean"
-    if fld.startswith("*") and fld[1:]=="Block":
-        return "type-expr", "the star is part of a type expression (*types.Block in a type assertion / channel type), not a dereference"
     if pkg=="blockchain/validation":
         return "tx-validator", "per-type tx validator: recipient dereferences are clauses of Model/TxValidate.lean (validateTx_no_panic) and exercised by the hostile tx stream"
     if f=="Blockchain.applyTxOnState":
@@ -57,10 +53,11 @@ def cls(fn, fld, root="_"):
         return "stored-chain", "block / header read back from the node's own database or already inserted into the chain"
     return "post-gate", "reached only with objects that passed Header.IsValid / Block.IsValid / BlockProposal.IsValid / Vote.IsValid / blockRange.IsValid (the gates of Model/Messages.lean); see DESIGN C12"
 
-out = ["# C12 dereference census expectation: function<TAB>field<TAB>root variable<TAB>sites<TAB>nil comparisons of root..field in the function<TAB>class<TAB>reason",
+out = ["# C12 dereference census expectation: function<TAB>field<TAB>file<TAB>UNGUARDED dereferences (pinned)<TAB>nil-guarded ones (informational)<TAB>class<TAB>reason",
+       "# unguarded = not dominated by a nil test of the same access path in the function (see census.go); predecessors (prevBlock.ProposedHeader…) must stay guarded: an unguarded one changes the pinned count",
        "# classes: modelled (must be in Msg.modelledSites) | nil-checked | nil-safe-callee | post-gate | local-object | stored-chain | encoder | tx-validator | post-validate | not-network | type-expr"]
 for l in open(sys.argv[1]):
-    fn, fld, root, n, g = l.rstrip("\n").split("\t")
-    c, why = cls(fn, fld, root)
-    out.append("\t".join([fn, fld, root, n, g, c, why]))
+    fn, fld, file, n, g = l.rstrip("\n").split("\t")
+    c, why = cls(fn, fld)
+    out.append("\t".join([fn, fld, file, n, g, c, why]))
 print("\n".join(out))
